@@ -604,7 +604,13 @@ class DoIPConnection:
         while True:
             if self.separate_diagnostic_message_queue:
                 return await self._diagnostic_message_queue.get()
-            hdr, payload = await self.read_frame()
+            try:
+                hdr, payload = await self.read_frame()
+            except BaseException:
+                # The caller gave up waiting (timeout, cancellation) or the connection is gone:
+                # the skipped frames must not be lost for later reads.
+                self._requeue(unexpected_packets)
+                raise
             if not isinstance(payload, DiagnosticMessage):
                 logger.warning(f"expected DoIP DiagnosticMessage, instead got: {hdr} {payload}")
                 unexpected_packets.append((hdr, payload))
@@ -629,7 +635,13 @@ class DoIPConnection:
     async def _read_ack(self, prev_data: bytes) -> None:
         unexpected_packets: list[tuple[Any, Any]] = []
         while True:
-            hdr, payload = await self.read_frame_unsafe()
+            try:
+                hdr, payload = await self.read_frame_unsafe()
+            except BaseException:
+                # The caller gave up waiting (timeout, cancellation) or the connection is gone:
+                # the skipped frames must not be lost for later reads.
+                self._requeue(unexpected_packets)
+                raise
             if not isinstance(payload, DiagnosticMessagePositiveAcknowledgement) and not isinstance(
                 payload, DiagnosticMessageNegativeAcknowledgement
             ):
@@ -666,7 +678,13 @@ class DoIPConnection:
     async def _read_routing_activation_response(self) -> None:
         unexpected_packets: list[tuple[Any, Any]] = []
         while True:
-            hdr, payload = await self.read_frame_unsafe()
+            try:
+                hdr, payload = await self.read_frame_unsafe()
+            except BaseException:
+                # The caller gave up waiting (timeout, cancellation) or the connection is gone:
+                # the skipped frames must not be lost for later reads.
+                self._requeue(unexpected_packets)
+                raise
             if not isinstance(payload, RoutingActivationResponse):
                 logger.warning(
                     f"expected DoIP RoutingActivationResponse, instead got: {hdr} {payload}"
